@@ -402,6 +402,38 @@ def clause_h(facts, rep):
     return n
 
 
+def clause_i(facts, rep, nss):
+    """The scalar bit primitives every scanner builds on, per arch namespace, evaluated (sv/minterp.py) on a set of
+    masks that exercises every bit position: TrailingZeroes == count of trailing zero bits, LeadingZeroes == count of
+    leading zero bits (both for non-zero input), CountOnes == population count, ClearLowestBit clears exactly the
+    lowest set bit."""
+    from ..minterp import Interp, Unsupported, UndefinedBehaviour
+    ref = {
+        'TrailingZeroes': lambda x: (x & -x).bit_length() - 1,
+        'LeadingZeroes': lambda x: 64 - x.bit_length(),
+        'CountOnes': lambda x: bin(x).count('1'),
+        'ClearLowestBit': lambda x: x & (x - 1),
+    }
+    vals = [1 << k for k in range(64)] + [(1 << k) | (1 << 63) for k in range(0, 63, 7)] + [(1 << k) - 1 for k in (2, 17, 33, 64)] + [0xAAAAAAAAAAAAAAAA, 0x8000000000000001, 0x00FF00FF00FF00FF]
+    n = 0
+    for f in facts.functions:
+        if f.short not in ref or not any(ns in f.qn for ns in nss) or len(f.params) != 1:
+            continue
+        rep.fn(f)
+        bad = None
+        try:
+            for x in vals:
+                got = Interp(f, facts).run({f.params[0]['id']: x}, {})[0]
+                if got != ref[f.short](x):
+                    bad = '%s(0x%016x) = %s, expected %s' % (f.short, x, got, ref[f.short](x))
+                    break
+        except (Unsupported, UndefinedBehaviour) as ex:
+            raise AnalysisBroken('C15.i: %s not evaluable: %s' % (f.qn, ex))
+        n += 1
+        rep.check(bad is None, 'E5.bit-primitive', f.qn, '%s agrees with its definition on %d masks' % (f.short, len(vals)), f.loc, bad or '', facts.config)
+    return n
+
+
 def run(rep, tier):
     f1 = get_facts('K1')
     f3 = get_facts('K3')
@@ -418,6 +450,9 @@ def run(rep, tier):
     n1 = clause_g(f1, rep)
     n3 = clause_g(f3, rep)
     rep.require(n1 >= 1 and n3 >= 1, 'C15.g: composed masks found: avx2 %d, sse %d' % (n1, n3))
+    i1 = clause_i(f1, rep, ('::avx2::',))
+    i3 = clause_i(f3, rep, ('::sse::',))
+    rep.require(i1 >= 3 and i3 >= 3, 'C15.i: bit primitives found: avx2 %d, sse %d' % (i1, i3))
     h1 = clause_h(f1, rep)
     h3 = clause_h(f3, rep)
     rep.require(h1 >= 1 and h3 >= 1, 'C15.h: unsigned vector relational operators found: avx2 %d, sse %d' % (h1, h3))
